@@ -149,6 +149,34 @@ def _param_table():
         compute_features(sig, fs, fr, burst_method='amp', burst_kwargs=bk, threshold_kwargs={'min_n_cycles': 3})       # a valid analysis first
         compute_features(sig, fs, fr, burst_method='amp', burst_kwargs=bk, threshold_kwargs={'min_n_cycles': -2})      # same option object, invalid setting
     add('negative min_n_cycles after a valid call sharing burst_kwargs', stale_after_valid, 'ValueError')
+    # which of two given values wins decides what is validated: the burst options' count overrides the thresholds' one, so a negative one there is rejected
+    add('amp: negative min_n_cycles in the burst options, a valid one in the thresholds',
+        lambda: compute_features(sig, fs, fr, burst_method='amp', burst_kwargs={'min_n_cycles': -1}, threshold_kwargs={'min_n_cycles': 3}), 'ValueError')
+    add('amp: negative min_n_cycles in the thresholds, a valid one in the burst options (it wins)',
+        lambda: compute_features(sig, fs, fr, burst_method='amp', burst_kwargs={'min_n_cycles': 2}, threshold_kwargs={'min_n_cycles': -1}), 'ok')
+    add('Bycycle(amp) negative min_n_cycles in the burst options (default thresholds)', lambda: Bycycle(burst_method='amp', burst_kwargs={'min_n_cycles': -1}).fit(sig, fs, fr), 'ValueError')
+    def retry_invalid_list():
+        # a rejected call RETRIED with the same option objects is rejected again (nothing was consumed from them on the way to the exception)
+        kw = [{'center_extrema': 'middle', 'threshold_kwargs': {}}, {'threshold_kwargs': {}}]
+        for _ in range(2):
+            try:
+                compute_features_2d(s2, fs, fr, kw, axis=None, n_jobs=1)
+            except ValueError:
+                continue
+            return
+        raise ValueError('rejected twice')
+    add('2d axis=None: an unknown center_extrema in a per-epoch list, call repeated with the same list', retry_invalid_list, 'ValueError')
+    def retry_invalid_dict():
+        kw = {'burst_method': 'bogus', 'threshold_kwargs': {}}
+        for ax in (0, None):
+            for _ in range(2):
+                try:
+                    compute_features_2d(s2, fs, fr, kw, axis=ax, n_jobs=1)
+                except ValueError:
+                    continue
+                return
+        raise ValueError('rejected every time')
+    add('2d: an unknown burst_method in a shared dict, call repeated with the same dict', retry_invalid_dict, 'ValueError')
     def refit_invalid():
         bm = Bycycle(burst_method='amp', thresholds={'burst_fraction_threshold': 0.8, 'min_n_cycles': 3})
         bm.fit(sig, fs, fr); bm.thresholds['min_n_cycles'] = -2; bm.fit(sig, fs, fr)
